@@ -25,10 +25,12 @@ def _csv_cell(value):
     Text of one csv cell, quoted only when needed. A cell is quoted when it contains the
     delimiter, a double quote, a line feed or a carriage return (csv.writer before Python 3.13
     only quotes the characters of its own lineterminator, so with lineterminator='\\n' a cell
-    containing a lone '\\r' was written bare and read back as two records).
+    containing a lone '\\r' was written bare and read back as two records). A cell that starts
+    with a blank is quoted as well: exetera's csv reader skips the blanks that follow a
+    separator or a line break, and only keeps them inside quotes.
     """
     text = value if isinstance(value, str) else str(value)
-    if any(ch in text for ch in ',"\r\n'):
+    if text[:1] == ' ' or any(ch in text for ch in ',"\r\n'):
         return '"' + text.replace('"', '""') + '"'
     return text
 
